@@ -679,7 +679,7 @@ int main(int argc, char** argv) {
     std::string mode = R.mode;
     for (int i = 0; i < 65536; i++) g_data[i] = (float)((i * 2654435761u) % 100003) / 7.0f * ((i % 3) ? 1.f : -1e-3f);
     // delay points: partitioner/reduce/scan windows, the join-tree decrement, and the steal protocol (where bodies get split)
-    std::vector<int> ids = { 200, 201, 202, 203, 204, 205, 200, 201, 202, 203, 204, 205, 43, 10, 3, 2, 8, 20 };
+    std::vector<int> ids = { 200, 201, 202, 203, 204, 205, 206, 207, 208, 209, 200, 201, 202, 203, 204, 205, 206, 43, 10, 3, 2, 8, 20 };
     Rng top(mix(R.seed, 0xC06));
     tbb::global_control gc(tbb::global_control::max_allowed_parallelism, 16);
     PartPool pool;
